@@ -1,37 +1,49 @@
-(* Model of the four Parameters classes of rpylib (HEMParameters, MertonParameters, VGParameters,
-   CGMYParameters) as records of primary + derived (cached) fields.
+(* Model of the five Parameters classes of rpylib (HEMParameters, MertonParameters, VGParameters, CGMYParameters,
+   BlackScholesParameters) as records of primary + derived (cached) fields, and of the calibration helpers of model/utils.py.
 
    Generated from the source on every run (Gen/GenC20Params.v, harness/specs/C20.py):
      - cond_*            : the constraint predicates of rpylib/tools/parameter.py
      - <cls>_guard_<f>   : which predicate the class declares for which attribute
+     - <cls>_nfields     : how many attributes the class stores (the translator refuses a class whose __init__ /
+                           initialisation store anything else than the fields listed here)
      - <cls>_init_<d>    : the derived field d as computed by __init__
      - <cls>_reinit_<d>  : the derived field d as computed by initialisation()
-   Hand-written here: the record, `set` (the property setter: stores the value iff the guard holds,
-   otherwise raises ValueError and leaves the object unchanged), `initialisation`, `construct`
-   (= __init__: every assignment goes through the setter, so construction fails iff some guard fails)
-   and `run` (a history of assignments, each ValueError being caught by the caller).
+   Hand-written here: the record, `set` (the property setter: stores the value iff the guard holds, otherwise raises
+   ValueError and leaves the object unchanged), `initialisation`, `construct` (= __init__: every assignment goes through the
+   setter, so construction raises ValueError iff some guard fails; then the derived fields are computed, which raises
+   ZeroDivisionError where Python float division by zero occurs -- `<cls>_defined`), `run` (a history of assignments, each
+   ValueError being caught by the caller).
 
-   fsqrt / fgamma / fpow stand for np.sqrt / scipy.special.gamma / np.power: the theorems hold for
-   every interpretation of them. *)
+   fsqrt / fgamma / fpow stand for np.sqrt / scipy.special.gamma / np.power: the theorems hold for every interpretation. *)
 From Coq Require Import ZArith QArith Qabs Bool List.
 From RV Require Import Base.QB Gen.GenC20Params.
 Import ListNotations.
 Open Scope Q_scope.
+
+Inductive outcome (A : Type) : Type :=
+  | Built (a : A)
+  | RaisesValueError            (* a property setter refused a value *)
+  | RaisesZeroDivisionError.    (* float division by zero in a derived-field formula *)
+Arguments Built {A} a.
+Arguments RaisesValueError {A}.
+Arguments RaisesZeroDivisionError {A}.
 
 Section Params.
 Variable fsqrt : Q -> Q.
 Variable fgamma : Q -> Q.
 Variable fpow : Q -> Q -> Q.
 
-(* ------------------------------------------------------------------ HEM *)
+(* ------------------------------------------------------------------ HEM: _xi = p*eta1/(eta1-1) + (1-p)*eta2/(eta2+1) - 1 raises ZeroDivisionError when a denominator is 0 *)
 Record HemRec := { h_sigma : Q; h_p : Q; h_eta1 : Q; h_eta2 : Q; h_intensity : Q; h_xi : Q }.
 Inductive HemField := HSigma | HP | HEta1 | HEta2 | HIntensity | HXi.
-
 Definition hem_guard (f : HemField) (v : Q) : bool :=
   match f with
-  | HSigma => hem_guard_sigma v | HP => hem_guard_p v | HEta1 => hem_guard_eta1 v
-  | HEta2 => hem_guard_eta2 v | HIntensity => hem_guard_intensity v
-  | HXi => true      (* `_xi` is a plain attribute *)
+  | HSigma => hem_guard_sigma v
+  | HP => hem_guard_p v
+  | HEta1 => hem_guard_eta1 v
+  | HEta2 => hem_guard_eta2 v
+  | HIntensity => hem_guard_intensity v
+  | HXi => true      (* cached fields are plain attributes *)
   end.
 Definition hem_write (f : HemField) (v : Q) (r : HemRec) : HemRec :=
   match f with
@@ -42,32 +54,33 @@ Definition hem_write (f : HemField) (v : Q) (r : HemRec) : HemRec :=
   | HIntensity => {| h_sigma := h_sigma r; h_p := h_p r; h_eta1 := h_eta1 r; h_eta2 := h_eta2 r; h_intensity := v; h_xi := h_xi r |}
   | HXi => {| h_sigma := h_sigma r; h_p := h_p r; h_eta1 := h_eta1 r; h_eta2 := h_eta2 r; h_intensity := h_intensity r; h_xi := v |}
   end.
-(* (state after, accepted?)  -- accepted = false is the ValueError of the setter *)
 Definition hem_set (r : HemRec) (f : HemField) (v : Q) : HemRec * bool :=
   if hem_guard f v then (hem_write f v r, true) else (r, false).
 Definition hem_initialisation (r : HemRec) : HemRec :=
-  {| h_sigma := h_sigma r; h_p := h_p r; h_eta1 := h_eta1 r; h_eta2 := h_eta2 r; h_intensity := h_intensity r;
-     h_xi := hem_reinit_xi (h_sigma r) (h_p r) (h_eta1 r) (h_eta2 r) (h_intensity r) |}.
+  {| h_sigma := h_sigma r; h_p := h_p r; h_eta1 := h_eta1 r; h_eta2 := h_eta2 r; h_intensity := h_intensity r; h_xi := hem_reinit_xi (h_sigma r) (h_p r) (h_eta1 r) (h_eta2 r) (h_intensity r) |}.
 Definition hem_valid (r : HemRec) : bool :=
-  hem_guard_sigma (h_sigma r) && hem_guard_p (h_p r) && hem_guard_eta1 (h_eta1 r) && hem_guard_eta2 (h_eta2 r)
-  && hem_guard_intensity (h_intensity r).
+  hem_guard_sigma (h_sigma r) && hem_guard_p (h_p r) && hem_guard_eta1 (h_eta1 r) && hem_guard_eta2 (h_eta2 r) && hem_guard_intensity (h_intensity r).
+Definition hem_defined (r : HemRec) : bool := negb (Qeq_bool (h_eta1 r - 1) 0) && negb (Qeq_bool (h_eta2 r + 1) 0).
 Definition hem_build (sigma p eta1 eta2 intensity : Q) : HemRec :=
-  {| h_sigma := sigma; h_p := p; h_eta1 := eta1; h_eta2 := eta2; h_intensity := intensity;
-     h_xi := hem_init_xi sigma p eta1 eta2 intensity |}.
-Definition hem_construct (sigma p eta1 eta2 intensity : Q) : option HemRec :=
-  let r := hem_build sigma p eta1 eta2 intensity in if hem_valid r then Some r else None.
+  {| h_sigma := sigma; h_p := p; h_eta1 := eta1; h_eta2 := eta2; h_intensity := intensity; h_xi := hem_init_xi sigma p eta1 eta2 intensity |}.
+Definition hem_construct (sigma p eta1 eta2 intensity : Q) : outcome HemRec :=
+  let r := hem_build sigma p eta1 eta2 intensity in
+  if hem_valid r then (if hem_defined r then Built r else RaisesZeroDivisionError) else RaisesValueError.
+Definition hem_initialisation_checked (r : HemRec) : outcome HemRec :=
+  if hem_defined r then Built (hem_initialisation r) else RaisesZeroDivisionError.
 Definition hem_run (ops : list (HemField * Q)) (r : HemRec) : HemRec :=
   fold_left (fun r op => fst (hem_set r (fst op) (snd op))) ops r.
-Definition hem_rebuild (r : HemRec) : option HemRec :=
-  hem_construct (h_sigma r) (h_p r) (h_eta1 r) (h_eta2 r) (h_intensity r).
+Definition hem_rebuild (r : HemRec) : outcome HemRec := hem_construct (h_sigma r) (h_p r) (h_eta1 r) (h_eta2 r) (h_intensity r).
+Definition hem_fields (r : HemRec) : list Q := [h_sigma r; h_p r; h_eta1 r; h_eta2 r; h_intensity r; h_xi r].
 
-(* ------------------------------------------------------------------ Merton (no derived field; initialisation is the base-class no-op) *)
+(* ------------------------------------------------------------------ Merton: no derived field; initialisation is the base-class no-op *)
 Record MertonRec := { m_sigma : Q; m_mu_j : Q; m_sigma_j : Q; m_intensity : Q }.
 Inductive MertonField := MSigma | MMuJ | MSigmaJ | MIntensity.
-
 Definition merton_guard (f : MertonField) (v : Q) : bool :=
   match f with
-  | MSigma => merton_guard_sigma v | MMuJ => merton_guard_mu_j v | MSigmaJ => merton_guard_sigma_j v
+  | MSigma => merton_guard_sigma v
+  | MMuJ => merton_guard_mu_j v
+  | MSigmaJ => merton_guard_sigma_j v
   | MIntensity => merton_guard_intensity v
   end.
 Definition merton_write (f : MertonField) (v : Q) (r : MertonRec) : MertonRec :=
@@ -79,27 +92,32 @@ Definition merton_write (f : MertonField) (v : Q) (r : MertonRec) : MertonRec :=
   end.
 Definition merton_set (r : MertonRec) (f : MertonField) (v : Q) : MertonRec * bool :=
   if merton_guard f v then (merton_write f v r, true) else (r, false).
-Definition merton_initialisation (r : MertonRec) : MertonRec := r.
+Definition merton_initialisation (r : MertonRec) : MertonRec :=
+  r.
 Definition merton_valid (r : MertonRec) : bool :=
-  merton_guard_sigma (m_sigma r) && merton_guard_mu_j (m_mu_j r) && merton_guard_sigma_j (m_sigma_j r)
-  && merton_guard_intensity (m_intensity r).
+  merton_guard_sigma (m_sigma r) && merton_guard_mu_j (m_mu_j r) && merton_guard_sigma_j (m_sigma_j r) && merton_guard_intensity (m_intensity r).
+Definition merton_defined (r : MertonRec) : bool := true.
 Definition merton_build (sigma mu_j sigma_j intensity : Q) : MertonRec :=
   {| m_sigma := sigma; m_mu_j := mu_j; m_sigma_j := sigma_j; m_intensity := intensity |}.
-Definition merton_construct (sigma mu_j sigma_j intensity : Q) : option MertonRec :=
-  let r := merton_build sigma mu_j sigma_j intensity in if merton_valid r then Some r else None.
+Definition merton_construct (sigma mu_j sigma_j intensity : Q) : outcome MertonRec :=
+  let r := merton_build sigma mu_j sigma_j intensity in
+  if merton_valid r then (if merton_defined r then Built r else RaisesZeroDivisionError) else RaisesValueError.
+Definition merton_initialisation_checked (r : MertonRec) : outcome MertonRec :=
+  if merton_defined r then Built (merton_initialisation r) else RaisesZeroDivisionError.
 Definition merton_run (ops : list (MertonField * Q)) (r : MertonRec) : MertonRec :=
   fold_left (fun r op => fst (merton_set r (fst op) (snd op))) ops r.
-Definition merton_rebuild (r : MertonRec) : option MertonRec :=
-  merton_construct (m_sigma r) (m_mu_j r) (m_sigma_j r) (m_intensity r).
+Definition merton_rebuild (r : MertonRec) : outcome MertonRec := merton_construct (m_sigma r) (m_mu_j r) (m_sigma_j r) (m_intensity r).
+Definition merton_fields (r : MertonRec) : list Q := [m_sigma r; m_mu_j r; m_sigma_j r; m_intensity r].
 
-(* ------------------------------------------------------------------ Variance Gamma *)
+(* ------------------------------------------------------------------ Variance Gamma: 1/nu, 2*sigma2/nu, theta/sigma2 raise ZeroDivisionError (Python floats) when nu = 0 or sigma**2 = 0 *)
 Record VgRec := { v_sigma : Q; v_nu : Q; v_theta : Q; v_c : Q; v_lambda_p : Q; v_lambda_m : Q }.
 Inductive VgField := VSigma | VNu | VTheta | VC | VLambdaP | VLambdaM.
-
 Definition vg_guard (f : VgField) (v : Q) : bool :=
   match f with
-  | VSigma => vg_guard_sigma v | VNu => vg_guard_nu v | VTheta => vg_guard_theta v
-  | VC | VLambdaP | VLambdaM => true
+  | VSigma => vg_guard_sigma v
+  | VNu => vg_guard_nu v
+  | VTheta => vg_guard_theta v
+  | VC | VLambdaP | VLambdaM => true      (* cached fields are plain attributes *)
   end.
 Definition vg_write (f : VgField) (v : Q) (r : VgRec) : VgRec :=
   match f with
@@ -113,31 +131,32 @@ Definition vg_write (f : VgField) (v : Q) (r : VgRec) : VgRec :=
 Definition vg_set (r : VgRec) (f : VgField) (v : Q) : VgRec * bool :=
   if vg_guard f v then (vg_write f v r, true) else (r, false).
 Definition vg_initialisation (r : VgRec) : VgRec :=
-  {| v_sigma := v_sigma r; v_nu := v_nu r; v_theta := v_theta r;
-     v_c := vg_reinit_c fsqrt (v_sigma r) (v_nu r) (v_theta r);
-     v_lambda_p := vg_reinit_lambda_p fsqrt (v_sigma r) (v_nu r) (v_theta r);
-     v_lambda_m := vg_reinit_lambda_m fsqrt (v_sigma r) (v_nu r) (v_theta r) |}.
+  {| v_sigma := v_sigma r; v_nu := v_nu r; v_theta := v_theta r; v_c := vg_reinit_c fsqrt (v_sigma r) (v_nu r) (v_theta r); v_lambda_p := vg_reinit_lambda_p fsqrt (v_sigma r) (v_nu r) (v_theta r); v_lambda_m := vg_reinit_lambda_m fsqrt (v_sigma r) (v_nu r) (v_theta r) |}.
 Definition vg_valid (r : VgRec) : bool :=
   vg_guard_sigma (v_sigma r) && vg_guard_nu (v_nu r) && vg_guard_theta (v_theta r).
+Definition vg_defined (r : VgRec) : bool := negb (Qeq_bool (v_nu r) 0) && negb (Qeq_bool (v_sigma r ^ 2) 0).
 Definition vg_build (sigma nu theta : Q) : VgRec :=
-  {| v_sigma := sigma; v_nu := nu; v_theta := theta;
-     v_c := vg_init_c fsqrt sigma nu theta;
-     v_lambda_p := vg_init_lambda_p fsqrt sigma nu theta;
-     v_lambda_m := vg_init_lambda_m fsqrt sigma nu theta |}.
-Definition vg_construct (sigma nu theta : Q) : option VgRec :=
-  let r := vg_build sigma nu theta in if vg_valid r then Some r else None.
+  {| v_sigma := sigma; v_nu := nu; v_theta := theta; v_c := vg_init_c fsqrt sigma nu theta; v_lambda_p := vg_init_lambda_p fsqrt sigma nu theta; v_lambda_m := vg_init_lambda_m fsqrt sigma nu theta |}.
+Definition vg_construct (sigma nu theta : Q) : outcome VgRec :=
+  let r := vg_build sigma nu theta in
+  if vg_valid r then (if vg_defined r then Built r else RaisesZeroDivisionError) else RaisesValueError.
+Definition vg_initialisation_checked (r : VgRec) : outcome VgRec :=
+  if vg_defined r then Built (vg_initialisation r) else RaisesZeroDivisionError.
 Definition vg_run (ops : list (VgField * Q)) (r : VgRec) : VgRec :=
   fold_left (fun r op => fst (vg_set r (fst op) (snd op))) ops r.
-Definition vg_rebuild (r : VgRec) : option VgRec := vg_construct (v_sigma r) (v_nu r) (v_theta r).
+Definition vg_rebuild (r : VgRec) : outcome VgRec := vg_construct (v_sigma r) (v_nu r) (v_theta r).
+Definition vg_fields (r : VgRec) : list Q := [v_sigma r; v_nu r; v_theta r; v_c r; v_lambda_p r; v_lambda_m r].
 
-(* ------------------------------------------------------------------ CGMY *)
+(* ------------------------------------------------------------------ CGMY: no division (Gamma poles / 0**negative give inf in numpy, no exception) *)
 Record CgmyRec := { c_c : Q; c_g : Q; c_m : Q; c_y : Q; c_CGammamY : Q; c_MpowerY : Q; c_GpowerY : Q }.
 Inductive CgmyField := CC | CG | CM | CY | CCGammamY | CMpowerY | CGpowerY.
-
 Definition cgmy_guard (f : CgmyField) (v : Q) : bool :=
   match f with
-  | CC => cgmy_guard_c v | CG => cgmy_guard_g v | CM => cgmy_guard_m v | CY => cgmy_guard_y v
-  | CCGammamY | CMpowerY | CGpowerY => true
+  | CC => cgmy_guard_c v
+  | CG => cgmy_guard_g v
+  | CM => cgmy_guard_m v
+  | CY => cgmy_guard_y v
+  | CCGammamY | CMpowerY | CGpowerY => true      (* cached fields are plain attributes *)
   end.
 Definition cgmy_write (f : CgmyField) (v : Q) (r : CgmyRec) : CgmyRec :=
   match f with
@@ -152,44 +171,115 @@ Definition cgmy_write (f : CgmyField) (v : Q) (r : CgmyRec) : CgmyRec :=
 Definition cgmy_set (r : CgmyRec) (f : CgmyField) (v : Q) : CgmyRec * bool :=
   if cgmy_guard f v then (cgmy_write f v r, true) else (r, false).
 Definition cgmy_initialisation (r : CgmyRec) : CgmyRec :=
-  {| c_c := c_c r; c_g := c_g r; c_m := c_m r; c_y := c_y r;
-     c_CGammamY := cgmy_reinit_CGammamY fgamma fpow (c_c r) (c_g r) (c_m r) (c_y r);
-     c_MpowerY := cgmy_reinit_MpowerY fgamma fpow (c_c r) (c_g r) (c_m r) (c_y r);
-     c_GpowerY := cgmy_reinit_GpowerY fgamma fpow (c_c r) (c_g r) (c_m r) (c_y r) |}.
+  {| c_c := c_c r; c_g := c_g r; c_m := c_m r; c_y := c_y r; c_CGammamY := cgmy_reinit_CGammamY fgamma fpow (c_c r) (c_g r) (c_m r) (c_y r); c_MpowerY := cgmy_reinit_MpowerY fgamma fpow (c_c r) (c_g r) (c_m r) (c_y r); c_GpowerY := cgmy_reinit_GpowerY fgamma fpow (c_c r) (c_g r) (c_m r) (c_y r) |}.
 Definition cgmy_valid (r : CgmyRec) : bool :=
   cgmy_guard_c (c_c r) && cgmy_guard_g (c_g r) && cgmy_guard_m (c_m r) && cgmy_guard_y (c_y r).
+Definition cgmy_defined (r : CgmyRec) : bool := true.
 Definition cgmy_build (c g m y : Q) : CgmyRec :=
-  {| c_c := c; c_g := g; c_m := m; c_y := y;
-     c_CGammamY := cgmy_init_CGammamY fgamma fpow c g m y;
-     c_MpowerY := cgmy_init_MpowerY fgamma fpow c g m y;
-     c_GpowerY := cgmy_init_GpowerY fgamma fpow c g m y |}.
-Definition cgmy_construct (c g m y : Q) : option CgmyRec :=
-  let r := cgmy_build c g m y in if cgmy_valid r then Some r else None.
+  {| c_c := c; c_g := g; c_m := m; c_y := y; c_CGammamY := cgmy_init_CGammamY fgamma fpow c g m y; c_MpowerY := cgmy_init_MpowerY fgamma fpow c g m y; c_GpowerY := cgmy_init_GpowerY fgamma fpow c g m y |}.
+Definition cgmy_construct (c g m y : Q) : outcome CgmyRec :=
+  let r := cgmy_build c g m y in
+  if cgmy_valid r then (if cgmy_defined r then Built r else RaisesZeroDivisionError) else RaisesValueError.
+Definition cgmy_initialisation_checked (r : CgmyRec) : outcome CgmyRec :=
+  if cgmy_defined r then Built (cgmy_initialisation r) else RaisesZeroDivisionError.
 Definition cgmy_run (ops : list (CgmyField * Q)) (r : CgmyRec) : CgmyRec :=
   fold_left (fun r op => fst (cgmy_set r (fst op) (snd op))) ops r.
-Definition cgmy_rebuild (r : CgmyRec) : option CgmyRec := cgmy_construct (c_c r) (c_g r) (c_m r) (c_y r).
+Definition cgmy_rebuild (r : CgmyRec) : outcome CgmyRec := cgmy_construct (c_c r) (c_g r) (c_m r) (c_y r).
+Definition cgmy_fields (r : CgmyRec) : list Q := [c_c r; c_g r; c_m r; c_y r; c_CGammamY r; c_MpowerY r; c_GpowerY r].
+
+(* ------------------------------------------------------------------ Black-Scholes: variance = sigma*sigma *)
+Record BsRec := { b_sigma : Q; b_variance : Q }.
+Inductive BsField := BSigma | BVariance.
+Definition bs_guard (f : BsField) (v : Q) : bool :=
+  match f with
+  | BSigma => bs_guard_sigma v
+  | BVariance => true      (* cached fields are plain attributes *)
+  end.
+Definition bs_write (f : BsField) (v : Q) (r : BsRec) : BsRec :=
+  match f with
+  | BSigma => {| b_sigma := v; b_variance := b_variance r |}
+  | BVariance => {| b_sigma := b_sigma r; b_variance := v |}
+  end.
+Definition bs_set (r : BsRec) (f : BsField) (v : Q) : BsRec * bool :=
+  if bs_guard f v then (bs_write f v r, true) else (r, false).
+Definition bs_initialisation (r : BsRec) : BsRec :=
+  {| b_sigma := b_sigma r; b_variance := bs_reinit_variance (b_sigma r) |}.
+Definition bs_valid (r : BsRec) : bool :=
+  bs_guard_sigma (b_sigma r).
+Definition bs_defined (r : BsRec) : bool := true.
+Definition bs_build (sigma : Q) : BsRec :=
+  {| b_sigma := sigma; b_variance := bs_init_variance sigma |}.
+Definition bs_construct (sigma : Q) : outcome BsRec :=
+  let r := bs_build sigma in
+  if bs_valid r then (if bs_defined r then Built r else RaisesZeroDivisionError) else RaisesValueError.
+Definition bs_initialisation_checked (r : BsRec) : outcome BsRec :=
+  if bs_defined r then Built (bs_initialisation r) else RaisesZeroDivisionError.
+Definition bs_run (ops : list (BsField * Q)) (r : BsRec) : BsRec :=
+  fold_left (fun r op => fst (bs_set r (fst op) (snd op))) ops r.
+Definition bs_rebuild (r : BsRec) : outcome BsRec := bs_construct (b_sigma r).
+Definition bs_fields (r : BsRec) : list Q := [b_sigma r; b_variance r].
 
 End Params.
 
 (* ------------------------------------------------------------------ calibration (model/utils.py)
-   calibrate_model_parameter deep-copies the parameters once, and for every trial value x handed
-   over by brentq performs   copy.<field> = x ; copy.initialisation() ; price(model(copy)) - market.
-   The root finder is specified, not modelled: `Root` is what scipy.optimize.brentq promises when it
-   returns x (bracket membership and residual below tolerance).  run_default_calibration then
-   builds  deepcopy(parameters).<field> = x ; initialisation()  and a model of the same class. *)
+   Objects live in a heap (list of records, addresses = positions); `model.levy_model.parameters` is the address p.
+   calibrate_model_parameter:  q := deepcopy(p);  brentq then calls calibration_fun on trial values of ITS choosing
+   (any list xs);  calibration_fun(x) does  q.<f> = x  (ValueError of the setter propagates: None),  q.initialisation(),
+   builds a model on q and returns price - market.   `alias = true` is the variant WITHOUT the deep copy (q := p), kept to
+   show that "the input is untouched" is a real statement about the code.
+   run_default_calibration then takes the value x returned by brentq, deep-copies p again, assigns, re-initialises and
+   returns a model on that new object.  brentq itself is specified (BrentSpec), not modelled. *)
 Section Calibration.
   Variable Rec Field : Type.
   Variable set : Rec -> Field -> Q -> Rec * bool.
   Variable initialisation : Rec -> Rec.
-  Variable price : Rec -> Q.            (* COS price of the calibration product, as a function of the parameter record *)
+  Variable price : Rec -> Q.            (* COS price of the calibration product as a function of the parameter object *)
+  Variable dflt : Rec.
 
-  Definition calib_params (r0 : Rec) (f : Field) (x : Q) : Rec := initialisation (fst (set r0 f x)).
-  Definition calibration_fun (r0 : Rec) (f : Field) (market : Q) (x : Q) : Q := price (calib_params r0 f x) - market.
-  Definition Root (r0 : Rec) (f : Field) (market a b tol x : Q) : Prop :=
-    a <= x /\ x <= b /\ Qabs (calibration_fun r0 f market x) <= tol.
-  (* (input model's parameters afterwards, parameters of the returned model) *)
-  Definition run_default_calibration_model (r0 : Rec) (f : Field) (x : Q) : Rec * Rec := (r0, calib_params r0 f x).
+  Definition Heap := list Rec.
+  Definition load (h : Heap) (p : nat) : Rec := nth p h dflt.
+  Fixpoint store (h : Heap) (p : nat) (r : Rec) : Heap :=
+    match h, p with
+    | [], _ => []
+    | _ :: t, O => r :: t
+    | x :: t, S p' => x :: store t p' r
+    end.
+  Definition deepcopy (h : Heap) (p : nat) : Heap * nat := (h ++ [load h p], length h).
+
+  Definition calibration_fun (q : nat) (f : Field) (market : Q) (st : Heap) (x : Q) : option (Heap * Q) :=
+    let '(r', ok) := set (load st q) f x in
+    if ok then let r'' := initialisation r' in Some (store st q r'', price r'' - market) else None.
+  Fixpoint run_trials (q : nat) (f : Field) (market : Q) (st : Heap) (xs : list Q) : option Heap :=
+    match xs with
+    | [] => Some st
+    | x :: rest => match calibration_fun q f market st x with
+                   | Some (st', _) => run_trials q f market st' rest
+                   | None => None
+                   end
+    end.
+  Definition calibrate_model_parameter (alias : bool) (h : Heap) (p : nat) (f : Field) (market : Q) (xs : list Q) : option Heap :=
+    let '(h1, q) := if alias then (h, p) else deepcopy h p in run_trials q f market h1 xs.
+  (* (heap afterwards, address of the returned model's parameters) *)
+  Definition run_default_calibration (h : Heap) (p : nat) (f : Field) (market : Q) (xs : list Q) (x : Q) : option (Heap * nat) :=
+    match calibrate_model_parameter false h p f market xs with
+    | None => None
+    | Some h1 => let '(h2, q2) := deepcopy h1 p in
+                 let '(r', ok) := set (load h2 q2) f x in
+                 if ok then Some (store h2 q2 (initialisation r'), q2) else None
+    end.
+
+  (* objective as a function of the trial value alone (shown history-independent per class: <cls>_trial_absorbs) *)
+  Definition objective (r0 : Rec) (f : Field) (market : Q) (x : Q) : Q := price (initialisation (fst (set r0 f x))) - market.
 End Calibration.
+
+(* what scipy.optimize.brentq promises when it RETURNS x for an objective F on [a,b] (a bracketing method: the returned
+   point lies in a sub-bracket of width <= delta = 2*(xtol + rtol*|x|) on which F changes sign; it RAISES ValueError when
+   F(a) and F(b) have the same strict sign).  Nothing is promised about |F(x)|: that needs regularity of F. *)
+Definition BrentSpec (F : Q -> Q) (a b delta x : Q) : Prop :=
+  exists x1 x2, a <= x1 /\ x1 <= x /\ x <= x2 /\ x2 <= b /\ x2 - x1 <= delta /\ F x1 * F x2 <= 0.
+Definition brent_must_raise (F : Q -> Q) (a b : Q) : Prop := 0 < F a * F b.
+Definition Lipschitz (g : Q -> Q) (a b L : Q) : Prop :=
+  forall y z, a <= y /\ y <= b -> a <= z /\ z <= b -> Qabs (g y - g z) <= L * Qabs (y - z).
 
 (* ------------------------------------------------------------------ executable stand-ins used by the correspondence only *)
 (* square root to 2^-100 (relative to 1) of a non-negative rational: floor(sqrt(q * 4^100)) / 2^100 *)
